@@ -52,6 +52,19 @@ def base_specs(n: int, max_params: int = 2, nouts=(1, 2), min_params: int = 0):
     yield from rec(0, [], [])
 
 
+def tri_output_specs():
+    """family with a THREE-output producer: f0(subset of roots) -> (o0, p0, q0); f1 takes 1..3 of roots/outputs (one output)"""
+    for r0 in range(0, 2):
+        for ps0 in itertools.combinations(ROOTS, r0):
+            f0 = {"name": "f0", "params": list(ps0), "outs": ["o0", "p0", "q0"]}
+            pool = [*ROOTS, "o0", "p0", "q0"]
+            for r1 in range(1, 4):
+                for ps1 in itertools.combinations(pool, r1):
+                    if not any(p in ("o0", "p0", "q0") for p in ps1):
+                        continue
+                    yield {"funcs": [copy.deepcopy(f0), {"name": "f1", "params": list(ps1), "outs": ["o1"]}]}
+
+
 def decorations(spec):
     """One decoration at a time (the undecorated spec is NOT included)."""
     prod = {o for f in spec["funcs"] for o in f["outs"]}
